@@ -1294,8 +1294,23 @@ def _check_seq(case):
             f.assign(**params)
             out = f.simulate(db, span, execution_order=case["order"], when_simulates_nan="silent")
             cache[key] = ({v: np.asarray(out[v].get_data(span), dtype=float)[:, 0] for v in names},
-                          tuple(f.lhs_names), tuple(f.get_equations()))
+                          tuple(f.lhs_names), tuple(f.get_equations()), planned(f))
         return cache[key]
+
+    plan_var = next((names[i] for i, e in enumerate(case["eqs"]) if e["lhs"] != "identity"), None)
+
+    def planned(obj):
+        """Simulation with a plan that exogenizes a left-hand variable at one date: exercises the residual back-out of
+        the equation objects, which a plain simulation never calls.  {name: column of the first variant} or None."""
+        if plan_var is None:
+            return None
+        ir_ = _ir()
+        pl = ir_.SimulationPlan(obj, span)
+        pl.exogenize(span.start + 1, plan_var)
+        dbp = db.copy()
+        dbp[plan_var][span.start + 1] = 1.25
+        outp = obj.simulate(dbp, span, plan=pl, execution_order=case["order"], when_simulates_nan="silent")
+        return {v: np.asarray(outp[v].get_data(span), dtype=float)[:, 0] for v in list(names) + ["res_" + plan_var]}
 
     m = api("sequential:from_string", ir.Sequential.from_string, src)
     api("sequential:assign", lambda: m.assign(**base))
@@ -1325,7 +1340,18 @@ def _check_seq(case):
                 col.fail(f"{tag}:simulate:raises:{type(exc).__name__}", f"{w}: {type(exc).__name__}: {exc}"[:1200])
                 s["dead"] = True
                 continue
-            ref, ref_lhs, ref_eqs = reference(s["params"], s["struct"])
+            ref, ref_lhs, ref_eqs, ref_planned = reference(s["params"], s["struct"])
+            if ref_planned is not None:
+                try:
+                    got_planned = planned(obj)
+                except Exception as exc:  # noqa: BLE001
+                    col.fail(f"{tag}:simulate_with_plan:raises:{type(exc).__name__}", f"{w}: {type(exc).__name__}: {exc}"[:1200])
+                    s["dead"] = True
+                    continue
+                for v, a_ in got_planned.items():
+                    d_ = _differs(a_, ref_planned[v])
+                    if not col.check(d_ is None, f"{tag}:simulate_with_plan", lambda: f"{w}: planned simulation, {v}: {d_}"):
+                        break
             lhs = api(f"{tag}:lhs_names", lambda: tuple(obj.lhs_names))
             col.check(lhs == ref_lhs, f"{tag}:lhs_names", lambda: f"{w}: {lhs} vs {ref_lhs} after {s['struct']}")
             eqs = api(f"{tag}:get_equations", lambda: tuple(obj.get_equations()))
